@@ -196,3 +196,16 @@ Theorem schedule_internal_no_uaf_old_refuted :
   exists t, no_uaf [] (submit_events t ++ thread_events exec_range_old true None [t]) = false.
 Proof. exact old_uaf_refuted. Qed.
 Print Assumptions schedule_internal_no_uaf_old_refuted.
+
+(* nested execution (a scheduled closure waits inside the tasking system and its thread runs other scheduled
+   closures meanwhile): a task object is never freed while its ExecuteRange is on the stack, because the
+   reclaim slot is written only after the user function returned.  Checked on the shapes of nested_shapes
+   (0..3 nested tasks, slot empty / occupied; nesting depth 1) — instances, not a general theorem. *)
+Theorem schedule_internal_nested_not_freed_on_stack_instances : nested_ok exec_range_fixed = true.
+Proof. exact nested_fixed_ok. Qed.
+Print Assumptions schedule_internal_nested_not_freed_on_stack_instances.
+(* writing the slot BEFORE the user function is refuted by one nested task, though flat histories cannot tell *)
+Example schedule_internal_defer_before_body_refuted :
+  stack_safe [] [] (outer_run exec_range_defer_first 1%N [2%N] None) = false /\
+  no_uaf [] (submit_events 1%N ++ thread_events exec_range_defer_first true None [1; 2; 3]%N) = true.
+Proof. exact (conj nested_defer_first_refuted defer_first_flat_ok). Qed.
